@@ -181,6 +181,9 @@ func (i *interpreter) sprintf(fr *frame, format value, args []value, wrapped *[]
 }
 
 func extSprintf(fr *frame, args []value) (value, bool) {
+	if fr.i.realFmt {
+		return nil, false // run the real fmt.Sprintf (C17)
+	}
 	return fr.i.sprintf(fr, args[0], args[1].([]value), nil), true
 }
 
